@@ -29,6 +29,8 @@ use std::collections::BTreeSet;
 use std::time::Instant;
 
 pub const UNIVERSE: [u8; 12] = [0, 1, 12, 13, 25, 26, 38, 39, 50, 51, 52, 63];
+/// thorough tier: two more non-card bits (14 bits, 16,384 sets)
+pub const UNIVERSE_THOROUGH: [u8; 14] = [0, 1, 12, 13, 25, 26, 38, 39, 50, 51, 52, 53, 57, 63];
 
 #[derive(Clone, Debug, PartialEq, Eq, Hash)]
 struct St {
@@ -50,7 +52,7 @@ fn bits_of(x: u64) -> BTreeSet<u8> {
 }
 
 /// the state invariant against the model; `probes` are the sub-sets membership is asked about
-fn invariant(real: u64, model: &BTreeSet<u8>, probes: &[u64]) -> Result<(), String> {
+fn invariant(real: u64, model: &BTreeSet<u8>, probes: &[(u64, BTreeSet<u8>)]) -> Result<(), String> {
     if real != mask_of(model) {
         return Err(format!("set-content: real {:#x} but the model holds {:?}", real, model));
     }
@@ -59,8 +61,8 @@ fn invariant(real: u64, model: &BTreeSet<u8>, probes: &[u64]) -> Result<(), Stri
         let single = real.is_single_card();
         let valid = real.is_valid();
         let mut bad_probe = None;
-        for p in probes {
-            let exp = bits_of(*p).is_subset(model);
+        for (p, pset) in probes {
+            let exp = pset.is_subset(model);
             if real.has(*p) != exp {
                 bad_probe = Some((*p, exp));
                 break;
@@ -190,7 +192,7 @@ fn model_from_hand(w: &[u32]) -> u64 {
 pub fn judge(case: &Case) -> Verdict {
     match case.kind.as_str() {
         "graph" => {
-            let probes: Vec<u64> = (0..4096u64).map(subset_of_universe).collect();
+            let probes = probe_sets(&UNIVERSE_THOROUGH);
             let mut s = St { real: 0, model: BTreeSet::new() };
             for (i, code) in case.words.iter().enumerate() {
                 if let Err(e) = invariant(s.real, &s.model, &probes) {
@@ -239,8 +241,11 @@ pub fn judge(case: &Case) -> Verdict {
     }
 }
 
-fn subset_of_universe(code: u64) -> u64 {
-    (0..12).filter(|i| code >> i & 1 == 1).fold(0u64, |m, i| m | 1u64 << UNIVERSE[i])
+fn subset_of(universe: &[u8], code: u64) -> u64 {
+    (0..universe.len()).filter(|i| code >> i & 1 == 1).fold(0u64, |m, i| m | 1u64 << universe[i])
+}
+fn probe_sets(universe: &[u8]) -> Vec<(u64, BTreeSet<u8>)> {
+    (0..1u64 << universe.len()).map(|c| subset_of(universe, c)).map(|m| (m, bits_of(m))).collect()
 }
 
 fn check_from_hand(acc: &mut Acc, w: &[u32]) {
@@ -263,20 +268,23 @@ pub fn run(ctx: &Ctx, rep: &mut Report) {
     // E2
     {
         let t0 = Instant::now();
-        let probes: Vec<u64> = (0..4096u64).map(subset_of_universe).collect();
+        let universe: Vec<u8> = if thorough { UNIVERSE_THOROUGH.to_vec() } else { UNIVERSE.to_vec() };
+        let ub = universe.len();
+        let nstates = 1u64 << ub;
+        let probes = probe_sets(&universe);
         let mut actions: Vec<Act> = Vec::new();
-        for i in 0..12 {
-            actions.push(Act::Fold(1u64 << UNIVERSE[i]));
+        for i in 0..ub {
+            actions.push(Act::Fold(1u64 << universe[i]));
         }
-        for i in 0..12 {
-            for j in i + 1..12 {
-                actions.push(Act::Fold(1u64 << UNIVERSE[i] | 1u64 << UNIVERSE[j]));
+        for i in 0..ub {
+            for j in i + 1..ub {
+                actions.push(Act::Fold(1u64 << universe[i] | 1u64 << universe[j]));
             }
         }
         actions.push(Act::Peel);
-        let full = subset_of_universe(4095);
+        let full = subset_of(&universe, nstates - 1);
         let inits = vec![(St { real: 0, model: BTreeSet::new() }, "empty set".to_string()), (St { real: full, model: bits_of(full) }, "all of U".to_string())];
-        let ex = Bfs { inits, actions: &actions, step: &step, invariant: &|s: &St| invariant(s.real, &s.model, &probes), label: &act_label, max_states: 4096 }.run();
+        let ex = Bfs { inits, actions: &actions, step: &step, invariant: &|s: &St| invariant(s.real, &s.model, &probes), label: &act_label, max_states: nstates }.run();
         let mut acc = Acc::new(1);
         acc.cases = ex.states;
         acc.calls = ex.transitions + ex.states * (probes.len() as u64 + 3);
@@ -303,15 +311,15 @@ pub fn run(ctx: &Ctx, rep: &mut Report) {
                 None => acc.violate(Violation { class: "graph:unreplayed".into(), case, expected: "invariant".into(), observed: why.clone(), profile: profile_name().into(), trace: trace.clone() }),
             }
         } else {
-            rep.guard("closed graph: exactly the 4,096 subsets of U were reached", ex.states == 4096, format!("{} states", ex.states));
-            rep.guard("every state has all 79 outgoing edges executed", ex.transitions == 4096 * 79, format!("{} transitions", ex.transitions));
+            rep.guard("closed graph: exactly the 2^|U| subsets of U were reached", ex.states == nstates, format!("{} states", ex.states));
+            rep.guard("every state has all its outgoing edges executed", ex.transitions == nstates * actions.len() as u64, format!("{} transitions", ex.transitions));
         }
         rep.sample(sample_json("graph", "empty -> fold_in(bit 51) -> fold_in(bits 0,63) -> peel", &format!("{:?}", {
             let mut s = 0u64.fold_in(1 << 51).fold_in(1 | 1 << 63);
             let c = s.peel();
             (format!("{:#x}", c), format!("{:#x}", s))
         })));
-        rep.add_space("E2: state graph over 12 bits (4,096 sets) x 79 actions, invariant with 4,096 membership probes per state", &acc, t0, "breadth-first until the frontier is empty; real fold_in / peel as transitions");
+        rep.add_space(&format!("E2: state graph over {} bits ({} sets) x {} actions, invariant with {} membership probes per state", ub, nstates, actions.len(), probes.len()), &acc, t0, "breadth-first until the frontier is empty; real fold_in / peel as transitions");
     }
     // E1: small sets and complements over all 64 bits, peeled to exhaustion
     {
